@@ -94,23 +94,46 @@ pub(crate) fn quiet_panics() {
     std::panic::set_hook(Box::new(|_| {}));
 }
 
-/// Last run index started by this worker; a watchdog ends the process if one
-/// run does not finish (only possible if the code under test deadlocks).
+/// Index of the run (or plan) this process is executing; `u64::MAX` = none. A
+/// watchdog reports a run that does not finish: the scheduler resolves ordinary
+/// blocking on a parked thread's lock within milliseconds (stall take-over), so a
+/// run that makes no progress for many seconds is blocked for good — the code under
+/// test has deadlocked (possible only in a changed tree, e.g. a non-re-entrant lock
+/// held while calling into the caller's sink, taken again by a re-entrant display).
 pub(crate) static PROGRESS: std::sync::atomic::AtomicU64 = std::sync::atomic::AtomicU64::new(u64::MAX);
 
-pub(crate) fn watchdog() {
-    std::thread::spawn(|| {
+pub(crate) fn hang_secs(default: u64) -> u64 {
+    std::env::var("VERIF_HANG_SECS").ok().and_then(|s| s.parse().ok()).unwrap_or(default)
+}
+
+pub(crate) fn hang_violation(secs: u64) -> Violation {
+    Violation {
+        kind: "hang".into(),
+        thread: 0,
+        op: 0,
+        nested: false,
+        subject: "the run as a whole".into(),
+        spec: String::new(),
+        expected: "every operation on a healthy sink / serializer completes".into(),
+        actual: format!("no progress for {secs} s: the code under test blocks for good (deadlock)"),
+    }
+}
+
+/// Calls `on_hang(index)` (which reports and exits) if PROGRESS stays at the same
+/// index for `secs` seconds.
+pub(crate) fn watchdog(secs: u64, on_hang: impl Fn(u64) + Send + 'static) {
+    std::thread::spawn(move || {
         use std::sync::atomic::Ordering::Relaxed;
         let mut last = PROGRESS.load(Relaxed);
         let mut since = Instant::now();
         loop {
-            std::thread::sleep(std::time::Duration::from_secs(2));
+            std::thread::sleep(std::time::Duration::from_millis(500));
             let now = PROGRESS.load(Relaxed);
             if now != last {
                 last = now;
                 since = Instant::now();
-            } else if now != u64::MAX && since.elapsed().as_secs() > 120 {
-                eprintln!("HARNESS ERROR: simulated run {now} made no progress for 120 s (the code under test blocks for good)");
+            } else if now != u64::MAX && since.elapsed().as_secs() >= secs {
+                on_hang(now);
                 std::process::exit(3);
             }
         }
@@ -119,7 +142,15 @@ pub(crate) fn watchdog() {
 
 fn worker(src: &str, base: u64, first: u64, count: u64, known: &[String]) -> WorkerOut {
     quiet_panics();
-    watchdog();
+    {
+        let (src, secs) = (src.to_string(), hang_secs(30));
+        watchdog(secs, move |i| {
+            // report the run that hangs as this worker's failure; its plan is a function of (source, seed, index)
+            let out = WorkerOut { runs: i - first, failure: Some((i, make_plan(&src, base, i), vec![hang_violation(secs)])), ..WorkerOut::default() };
+            println!("{}", serde_json::to_string(&out).unwrap());
+            std::process::exit(0);
+        });
+    }
     let mut out = WorkerOut::default();
     let mut traces = BTreeSet::new();
     let mut subj = BTreeSet::new();
@@ -205,7 +236,18 @@ fn exec_stdin() -> i32 {
             return 2;
         }
     };
-    let results = plans.iter().map(execute).collect();
+    let secs = hang_secs(10);
+    watchdog(secs, move |_| {
+        let hung = RunResult { violations: vec![hang_violation(secs)], stats: RunStats::default(), log: vec!["the run hangs".into()] };
+        println!("{}", serde_json::to_string(&ExecOut { results: vec![hung] }).unwrap());
+        std::process::exit(0);
+    });
+    let mut results = Vec::new();
+    for (i, p) in plans.iter().enumerate() {
+        PROGRESS.store(i as u64, std::sync::atomic::Ordering::Relaxed);
+        results.push(execute(p));
+    }
+    PROGRESS.store(u64::MAX, std::sync::atomic::Ordering::Relaxed);
     println!("{}", serde_json::to_string(&ExecOut { results }).unwrap());
     0
 }
@@ -531,6 +573,7 @@ fn batch(args: &[String]) -> i32 {
         first += n;
     }
     let mut running = std::collections::VecDeque::new();
+    let mut stop_spawning = false;
     while running.len() < jobs as usize {
         match pending.pop_front() {
             Some((f, n)) => running.push_back((f, n, spawn(f, n))),
@@ -549,8 +592,12 @@ fn batch(args: &[String]) -> i32 {
     let mut first_chunk_out: Option<WorkerOut> = None;
     while let Some((first, n, ch)) = running.pop_front() {
         let o = ch.wait_with_output().expect("worker");
-        if let Some((f2, n2)) = pending.pop_front() {
-            running.push_back((f2, n2, spawn(f2, n2)));
+        // once a violation has been found no further workers are started (in a changed tree
+        // every one of them may cost a hang time-out); those already running are collected
+        if !stop_spawning {
+            if let Some((f2, n2)) = pending.pop_front() {
+                running.push_back((f2, n2, spawn(f2, n2)));
+            }
         }
         let w: WorkerOut = match serde_json::from_slice(&o.stdout) {
             Ok(w) => w,
@@ -577,6 +624,7 @@ fn batch(args: &[String]) -> i32 {
         }
         if let Some(f) = &w.failure {
             failures.push((first, f.clone()));
+            stop_spawning = true;
         }
         if first == 0 {
             first_chunk_out = Some(w);
@@ -729,10 +777,25 @@ fn replay(path: &str) -> i32 {
         eprintln!("replay file is for back-end {}, this binary is {}", rp.backend, amt::BACKEND);
         return 2;
     }
+    {
+        let (secs, kind, path) = (hang_secs(10), rp.kind.clone(), path.to_string());
+        watchdog(secs, move |_| {
+            println!("  the run hangs: no progress for {secs} s");
+            if kind == "hang" {
+                println!("violation reproduced: hang");
+                println!("VIOLATION property=C15 replay={}", path);
+                std::process::exit(1);
+            }
+            println!("HARNESS ERROR: the replay hangs, the recorded violation was {kind}");
+            std::process::exit(2);
+        });
+    }
     let mut last = None;
-    for p in &rp.plans {
+    for (i, p) in rp.plans.iter().enumerate() {
+        PROGRESS.store(i as u64, std::sync::atomic::Ordering::Relaxed);
         last = Some(execute(p));
     }
+    PROGRESS.store(u64::MAX, std::sync::atomic::Ordering::Relaxed);
     let res = last.unwrap();
     for l in &res.log {
         println!("  {l}");
